@@ -6,7 +6,7 @@ From SV Require Import Props.C09.
 Check C09_parse_encode :
   forall cd alg tr r f mid,
   req_wf r -> mid_matches mid r ->
-  encode_request cd None tr r = Ok f -> blen f < 4294967296 + 9 ->
+  encode_request cd None tr r = Ok f ->
   parse_frame cd alg mid f
   = Ok (mkHeader 4 (if tr then 2 else 0) 0 (opcode r) (blen f - 9), r).
 Check C09_plain_body :
@@ -16,18 +16,28 @@ Check C09_compressed :
   forall cd alg tr r f mid body,
   codec_ok cd -> req_wf r -> mid_matches mid r ->
   encode_request cd (Some alg) tr r = Ok f -> serialize_request r = Ok body ->
-  blen body < 4294967296 -> blen f < 4294967296 + 9 ->
   decompress cd alg (skipn 9 f) = Some body /\
   parse_frame cd (Some alg) mid f
   = Ok (mkHeader 4 (if tr then 3 else 1) 0 (opcode r) (blen f - 9), r).
 Check C09_oversize :
   forall cd c tr r,
-  oversize r = true -> exists e, encode_request cd c tr r = Err e.
+  oversize r = true \/ (body_too_long r = true /\ c <> Some Snappy) ->
+  exists e, encode_request cd c tr r = Err e.
+Check C09_body_too_long :
+  forall cd c tr r body,
+  serialize_request r = Ok body -> 4294967296 <= blen body -> c <> Some Snappy ->
+  encode_request cd c tr r = Err (ErrBodyTooLong (blen body)).
+Check C09_payload_too_long :
+  forall cd alg tr r body payload,
+  serialize_request r = Ok body -> compress_append cd alg body = Ok payload ->
+  4294967296 <= blen payload ->
+  encode_request cd (Some alg) tr r = Err (ErrBodyTooLong (blen payload)).
 Check C09_encode_total :
   forall cd tr r,
-  oversize r = false -> batch_counts_match r = true ->
+  oversize r = false -> batch_counts_match r = true -> body_too_long r = false ->
   (exists f, encode_request cd None tr r = Ok f) /\
-  (exists f, encode_request cd (Some Lz4) tr r = Ok f).
+  (forall body, serialize_request r = Ok body -> 4 + blen (lz4_compress cd body) < 4294967296 ->
+     exists f, encode_request cd (Some Lz4) tr r = Ok f).
 Check C09_batch_mismatch :
   forall cd cmp tr bt stmts vals c sc ts,
   List.length stmts <> List.length vals ->
@@ -43,8 +53,7 @@ Check C09_bad_batch_unreachable :
 Check C09_encode_injective :
   forall cd tr r1 r2 f,
   req_wf r1 -> req_wf r2 -> uses_mid r1 = uses_mid r2 ->
-  encode_request cd None tr r1 = Ok f -> encode_request cd None tr r2 = Ok f ->
-  blen f < 4294967296 + 9 -> r1 = r2.
+  encode_request cd None tr r1 = Ok f -> encode_request cd None tr r2 = Ok f -> r1 = r2.
 Check C09_set_stream :
   forall cd alg mid f h r s,
   (- 2 ^ 15 <= s < 2 ^ 15)%Z ->
@@ -56,25 +65,24 @@ Check C09_frame_says_sound :
             h_length h + 9 = blen f /\ h_flags h = frame_flags (is_some c) tr /\ h_stream h = 0%Z.
 Check C09_frame_says_complete :
   forall cd tr r f,
-  req_wf r -> encode_request cd None tr r = Ok f -> blen f < 4294967296 + 9 ->
-  frame_says cd None tr r f = true.
-Check C09_len32_wraps :
-  forall cd big, blen big = 2147483647 ->
-  exists f, encode_request cd None false
-              (Query big (mkQP One None None None (Some big) false [CVal big])) = Ok f /\
-            parse_frame cd None false f = Err PBadLength.
-Check C09_len32_batch :
-  forall cd text n f,
+  req_wf r -> encode_request cd None tr r = Ok f -> frame_says cd None tr r f = true.
+Check C09_uniform_batch :
+  forall cd text n,
   blen text < 2147483648 -> N.of_nat n < 65536 ->
-  encode_request cd None false (Batch Logged (repeat (SQuery text) n) (repeat [] n) One None None) = Ok f ->
-  blen f = 9 + batch_body_len (N.of_nat n) (blen text) /\
-  be_dec (firstn 4 (skipn 5 f)) = header_len_field (batch_body_len (N.of_nat n) (blen text)).
-Check C09_len32_class :
-  forall b, header_len_field b = b <-> len32_class b = false.
+  match uniform_batch_outcome (N.of_nat n) (blen text) with
+  | Ok b => exists f, encode_request cd None false
+                        (Batch Logged (repeat (SQuery text) n) (repeat [] n) One None None) = Ok f /\
+                      blen f = 9 + b /\ be_dec (firstn 4 (skipn 5 f)) = b
+  | Err b => encode_request cd None false
+               (Batch Logged (repeat (SQuery text) n) (repeat [] n) One None None)
+             = Err (ErrBodyTooLong b) /\ 4294967296 <= b
+  end.
 Print Assumptions C09_parse_encode.
 Print Assumptions C09_plain_body.
 Print Assumptions C09_compressed.
 Print Assumptions C09_oversize.
+Print Assumptions C09_body_too_long.
+Print Assumptions C09_payload_too_long.
 Print Assumptions C09_encode_total.
 Print Assumptions C09_batch_mismatch.
 Print Assumptions C09_batch_mismatch_class.
@@ -83,6 +91,4 @@ Print Assumptions C09_encode_injective.
 Print Assumptions C09_set_stream.
 Print Assumptions C09_frame_says_sound.
 Print Assumptions C09_frame_says_complete.
-Print Assumptions C09_len32_wraps.
-Print Assumptions C09_len32_batch.
-Print Assumptions C09_len32_class.
+Print Assumptions C09_uniform_batch.
